@@ -92,6 +92,11 @@ def sub(root: str, rel: str, old: str, new: str, count: int = 1) -> None:
 
 
 def apply_variant(v: dict, root: str, repo: str) -> None:
+    if "patch" in v:
+        r = subprocess.run(["patch", "-p1", "-s", "-F", "3", "--no-backup-if-mismatch"], input=open(v["patch"]).read(), text=True,
+                           cwd=root, capture_output=True)
+        if r.returncode != 0:
+            raise Stale(f"cannot apply {v['patch']}: {r.stdout[-300:]}")
     if "edits" in v:
         for e in v["edits"]:
             sub(root, e[0], e[1], e[2], e[3] if len(e) > 3 else 1)
@@ -102,11 +107,6 @@ def apply_variant(v: dict, root: str, repo: str) -> None:
                            capture_output=True)
         if r.returncode != 0:
             raise Stale(f"cannot revert {v['revert']}: {r.stdout[-300:]}")
-    if "patch" in v:
-        r = subprocess.run(["patch", "-p1", "-s", "-F", "3", "--no-backup-if-mismatch"], input=open(v["patch"]).read(), text=True,
-                           cwd=root, capture_output=True)
-        if r.returncode != 0:
-            raise Stale(f"cannot apply {v['patch']}: {r.stdout[-300:]}")
     if "transform" in v:
         from . import selftest_variants as sv
         getattr(sv, v["transform"])(root)
